@@ -33,7 +33,12 @@ type Case struct {
 	IsType  string   `json:"is_type,omitempty"`
 }
 
+// uid of node i; i < 0 denotes the zero-value EntityUID (what a cedar.Request carries for an unset principal / action /
+// resource): it is never in the store, has no parents and equals no node.
 func uid(c *Case, i int) types.EntityUID {
+	if i < 0 {
+		return types.EntityUID{}
+	}
 	return types.NewEntityUID(types.EntityType(c.Types[i]), types.String(fmt.Sprintf("n%d", i)))
 }
 
@@ -77,6 +82,9 @@ func reach(c *Case, a, b int) bool {
 }
 
 func expected(c *Case) bool {
+	if c.Src < 0 {
+		return false
+	}
 	typeOK := true
 	switch c.Form {
 	case "isin", "scope-p-isin", "scope-r-isin":
@@ -297,13 +305,22 @@ func report(t *testing.T, sub string, c *Case, msg string) {
 // TestExhaustive enumerates every parent relation on n nodes x every presence subset x every ordered pair
 // (operator form), plus set targets and scope forms on n = 3. Work is split over shards by graph index.
 func TestExhaustive(t *testing.T) {
-	n := ev.Pick(3, 4)
+	if ev.Thorough() {
+		exhaustive(t, 4, 1)
+		return
+	}
+	exhaustive(t, 3, 1)
+	// quick tier: a systematic 1/61 sample of the 4-node graphs (complete in the thorough tier)
+	exhaustive(t, 4, 61)
+}
+
+func exhaustive(t *testing.T, n int, stride uint32) {
 	typesOf := []string{"T0", "T0", "T1", "T1"}[:n]
 	total := uint32(1) << uint(n*n)
 	var pairs, nontrivial int64
 	fails := 0
 	for bits := uint32(0); bits < total; bits++ {
-		if int(bits)%ev.NShards != ev.Shard {
+		if bits%stride != 0 || int(bits/stride)%ev.NShards != ev.Shard {
 			continue
 		}
 		c := graphFromBits(n, bits, typesOf)
@@ -330,7 +347,7 @@ func TestExhaustive(t *testing.T) {
 			}
 			// set targets / is-in / scope forms: full on n=3, 1/16 systematic sample on n=4
 			if n == 3 || (bits+uint32(pm))%16 == 0 {
-				for a := 0; a < n; a++ {
+				for a := -1; a < n; a++ { // -1 = the zero-value uid as source
 					for tm := 1; tm < 1<<uint(n); tm++ {
 						var ts []int
 						for b := 0; b < n; b++ {
@@ -392,7 +409,10 @@ func TestExhaustive(t *testing.T) {
 	ev.Unwatch()
 	ev.R.Count(pairs)
 	ev.R.Label("exhaustive-questions", pairs)
-	if ev.First() {
+	if ev.First() && stride > 1 {
+		ev.R.Note(fmt.Sprintf("n=%d graphs: systematic 1/%d sample (not exhaustive) in this tier", n, stride))
+	}
+	if ev.First() && stride == 1 {
 		ev.R.Space(fmt.Sprintf("all parent relations on %d nodes x all presence subsets x all ordered pairs (operator form)", n), int(total)*(1<<uint(n))*n*n)
 		if n == 3 {
 			ev.R.Space("n=3: every non-empty target set, is-in and all scope forms for every (graph, presence, source)", int(total)*8*3*(7*2+3*11))
@@ -446,7 +466,7 @@ func genCase(t *rapid.T) *Case {
 			}
 		}
 	}
-	c.Src = rapid.IntRange(0, n-1).Draw(t, "src")
+	c.Src = rapid.IntRange(-1, n-1).Draw(t, "src") // -1: the zero-value uid
 	c.Form = rapid.SampledFrom([]string{"in", "in", "inset", "inset", "isin", "scope-p-in", "scope-p-isin", "scope-a-in", "scope-a-inset", "scope-r-in", "scope-r-isin", "scope-r-is"}).Draw(t, "form")
 	nt := 1
 	if c.Form == "inset" || c.Form == "scope-a-inset" {
